@@ -22,6 +22,7 @@ func (p *c03) ID() string { return "C03" }
 
 func (p *c03) Init(tier string, seed int64) {
 	p.tier, p.seed = tier, seed
+	poisonEvery = 1
 	p.n = p.pick(20000, 600000)
 }
 
